@@ -13,6 +13,13 @@ HARNESSES = [
     dict(name="bp_append", file="bp_append.c", label="proved", timeout=600,
          loops=["sqfs_block_processor_append"], loop_tables=["C01_w14"],
          pre_instrument_flags=_REPL,
+         # --conversion-check: "blk_flags &= ~SQFS_BLK_FIRST_BLOCK" converts the int
+         # mask to unsigned (defined, intended; same exclusion as C13 bp_append).
+         # --pointer-overflow-check: the data buffer and the block payload are
+         # address ranges anchored at small objects (see bp_append.c); cbmc 6.11's
+         # check also reports "pointer outside object bounds", which the named
+         # obligations C01.bp.append_safe state arithmetically instead.
+         nochecks=["--conversion-check", "--pointer-overflow-check"],
          cases=[dict(id="cur%d_bs%d" % (c, 1 << lg), defines={"HAVE_CUR": c, "BS_LOG": lg},
                      tier="quick" if lg == 12 else "thorough")
                 for lg in (12, 17, 20) for c in (0, 1)]),
